@@ -445,6 +445,11 @@ def gen_C05(tier, rng):
             ins = [("leaf", False, [n], iota(n, 1.0)), ("leaf", False, [m], iota(m, 4.0)),
                    ("op", ("matmul", False, False), [0, 1])]
             cases.append(case("dot", ins, "rank1:dot" if n == m else "refuse:dot"))
+            if n == m:
+                # the dot product accumulated onto a one-element additive term
+                ins = [("leaf", False, [n], iota(n, 1.0)), ("leaf", False, [m], iota(m, 4.0)), ("leaf", False, [1], [100.0]),
+                       ("op", ("matmul", False, False), [0, 1, 2])]
+                cases.append(case("dot_c", ins, "rank1:dot_with_additive_term"))
     # mismatching inner dimension must be refused
     for rows, inner, cols in itertools.product((1, 2, 3), repeat=3):
         for other in (1, 2, 3, 4):
@@ -743,8 +748,8 @@ def gen_C07(tier, rng):
     # (and a zero derivative), relu/neg/scale must pass the magnitude through
     for k in range(30 if tier == "quick" else 300):
         n = rng.randint(1, 5)
-        mags = [rng.choice([700.0, 709.0, 711.0, 745.0, 746.0, 800.0, 1e4, 1e10, 1e300]) * rng.choice([-1.0, 1.0])
-                for _ in range(n)]
+        mags = [rng.choice([700.0, 709.0, 711.0, 745.0, 746.0, 800.0, 1e4, 1e10, 1e300, 1e308, 1.5e308, 1.79e308])
+                * rng.choice([-1.0, 1.0]) for _ in range(n)]
         negs = [-abs(x) for x in mags]
         tr = k % 2 == 1
         ins = [("leaf", tr, [n], mags), ("op", ("sigmoid",), [0]), ("op", ("relu",), [0]), ("op", ("neg",), [0]),
@@ -2118,6 +2123,18 @@ def gen_C09(tier, rng):
                 cases.append(case("sum_k", ins, "sum_beyond_rank" if k > len(s) else "sum_k"))
                 if k > len(s):
                     cases[-1]["refusal_ok"] = True
+    # the rank-1 dot product with a one-element additive term under every tracking mask; afterwards the term is
+    # used in an unrelated second computation and must collect that gradient too (nothing of the first pass is left)
+    for n in (1, 2, 3):
+        for mask in itertools.product((False, True), repeat=3):
+            ins = [("leaf", mask[0], [n], iota(n, 1.0)), ("leaf", mask[1], [n], iota(n, 4.0)),
+                   ("leaf", mask[2], [1], [10.0]), ("op", ("matmul", False, False), [0, 1, 2]), ("obs", 3)]
+            if any(mask):
+                ins += [("backward", 3, ([1], [2.0])), ("grad", 0), ("grad", 1), ("grad", 2), ("probe", 2)]
+            ins += [("leaf", True, [1], [3.0]), ("op", ("mul",), [2, len(ins)]), ]
+            z = len(ins) - 1
+            ins += [("backward", z, None), ("grad", 2), ("probe", 2), ("probe", 0), ("probe", 1)]
+            cases.append(case("dot_c_mask", ins, "dot_with_additive_term"))
     # only the additive term of matmul tracked
     for shape_c in ([2], [2, 2], [1, 2], [1]):
         for mask in itertools.product((False, True), repeat=3):
@@ -2479,6 +2496,44 @@ def gen_C18(tier, rng):
           ("sigmoid",), ("softmax",), ("sum", 1), ("sum", 0), ("reshape", [4])]
     bi = [("add",), ("sub",), ("mul",), ("div",), ("axpy", 0.5), ("matmul", False, False), ("matmul", True, False),
           ("matmul", False, True), ("matmul", True, True)]
+    # a seed that is an existing array: after the pass, with the stored gradients cleared and the results dropped,
+    # the seed is sole owner of its buffer again (nothing of the pass - no pending delta - may still hold it)
+    for opk in ("dot_c", "add", "reshape", "matmul_c", "sub"):
+        for n in (1, 2, 3):
+            if opk == "dot_c":
+                ins = [("leaf", True, [n], iota(n, 1.0)), ("leaf", True, [n], iota(n, 4.0)), ("leaf", True, [1], [10.0]),
+                       ("op", ("matmul", False, False), [0, 1, 2])]
+                sd, leaves_ = [1], [0, 1, 2]
+            elif opk == "matmul_c":
+                ins = [("leaf", True, [n, 2], iota(2 * n, 1.0)), ("leaf", True, [2, n], iota(2 * n, 4.0)),
+                       ("leaf", True, [n, n], iota(n * n, 2.0)), ("op", ("matmul", False, False), [0, 1, 2])]
+                sd, leaves_ = [n, n], [0, 1, 2]
+            elif opk == "reshape":
+                ins = [("leaf", True, [n, 2], iota(2 * n, 1.0)), ("op", ("reshape", [2, n]), [0])]
+                sd, leaves_ = [2, n], [0]
+            else:
+                ins = [("leaf", True, [n], iota(n, 1.0)), ("leaf", True, [n], iota(n, 4.0)), ("op", (opk,), [0, 1])]
+                sd, leaves_ = [n], [0, 1]
+            r = len(ins) - 1
+            ins.append(("leaf", False, sd, iota(prod(sd), 1.0)))
+            s_ = len(ins) - 1
+            ins.append(("backwardh", r, s_, sd, iota(prod(sd), 1.0)))
+            # a second, unrelated computation over the LAST leaf, seeded with another existing array: whatever the
+            # first pass left on that leaf must not swallow this delta
+            last = leaves_[-1]
+            ld = ins[last][2]
+            ins.append(("leaf", True, ld, iota(prod(ld), 7.0)))
+            ins.append(("op", ("add",), [last, len(ins) - 1]))
+            z_ = len(ins) - 1
+            ins.append(("leaf", False, ld, iota(prod(ld), 2.0)))
+            s2 = len(ins) - 1
+            ins.append(("backwardh", z_, s2, ld, iota(prod(ld), 2.0)))
+            ins += [("cleargrad", l_) for l_ in leaves_] + [("cleargrad", r), ("cleargrad", z_), ("cleargrad", z_ - 1),
+                                                             ("drop", r), ("drop", z_), ("takevec", s_), ("takevec", s2)]
+            c = case("release_seed", ins, "release_existing_seed:%s" % opk)
+            c["takes"] = [len(ins) - 2, len(ins) - 1]
+            c["adjudicate"] = c["takes"]
+            cases.append(c)
     # inference: every operation applied TWICE in a row to the same untracked operands (no graph at all), results
     # dropped, Vec::from on the operands - nothing outside the program's own handles may keep a buffer alive
     for op in un + bi + [("conv", 1, 1), ("conv", 2, 1)]:
